@@ -263,7 +263,7 @@ PROPS["C06"] = dict(
     level_text=("(a) the full product of 51 header x 37 payload x 18 signature fragments (one fragment per shortcut in the parser and "
                 "decoder, incl. the correct HS256 MAC) under five checker configurations, plus 2- and 4-segment assemblies; (b) the "
                 "complete single-byte neighbourhood (every position x every byte substituted and inserted, every deletion and "
-                "truncation) of one valid token per configuration; (c) one token per segment length 0-300 and around 4 Ki / 64 Ki; "
+                "truncation) of one valid token per configuration, and in the thorough tier the d=2 neighbourhood (every pair of positions x 6x6 structural bytes) of the unsigned and the HS256 token; (c) one token per segment length 0-300 and around 4 Ki / 64 Ki; "
                 "(d) every string of length <= 6 over {. = e A - ! 0x80}; (e) a signature of every decoded length 0-300 (and around 384, 512) "
                 "under every header x nine checker configurations (P-256/384/521, Ed25519/Ed448, RSA PKCS1/PSS, oct, none).  Everything "
                 "is run twice per provider: under ASan/UBSan, and with a guard-page allocator installed through jwt_set_alloc so that "
